@@ -2,7 +2,8 @@
    Statements only; proofs in proofs/RelLexP.v and proofs/RelParseP.v.
    Quantifier: every s : list N, both settings of allow_substvar, no length bound. *)
 From V.model Require Import Base RelLex RelParse.
-From V.proofs Require Import RelLexP RelParseP.
+From V.proofs Require Import RelLexP RelParseP SourceTablesP.
+From V.gen Require Import Classes_gen.
 
 Theorem C09_reader : forall s : str,
   (forall allow, exists t n, parse_relaxed s allow = Ok (t, n) /\ text t = s) /\
@@ -33,6 +34,26 @@ Proof. exact rparse_tokens_total. Qed.
 Check C09_parser_conserves : forall allow ts, exists t n,
   parse_tokens allow ts = Ok (t, n) /\ text t = concat (map snd ts).
 Print Assumptions C09_parser_conserves.
+
+(* Tie to the source: character classes, single-character token arms and SyntaxKind numbering of
+   the model are the ones translate/classes.py regenerated from debian-control/src/relations.rs. *)
+Theorem C09_source_tables : classes_recognised = true /\
+  (forall c, is_rel_ws c = is_whitespace_src c /\ is_ident_char c = is_valid_ident_char_src c) /\
+  (forallb (fun ck => match single_char_kind (fst ck) with
+                      | Some k => (rkind_code k =? snd ck)%N | None => false end) single_char_arms_src = true /\
+   length single_char_arms_src = 15 /\ NoDup (map fst single_char_arms_src)) /\
+  (forall c k, single_char_kind c = Some k -> In c (map fst single_char_arms_src)).
+Proof.
+  split; [exact classes_recognised_ok|]. split; [intros c; split; [apply is_rel_ws_src_eq|apply is_ident_char_src_eq]|].
+  split; [exact single_char_arms_ok|exact single_char_only].
+Qed.
+Check C09_source_tables : classes_recognised = true /\
+  (forall c, is_rel_ws c = is_whitespace_src c /\ is_ident_char c = is_valid_ident_char_src c) /\
+  (forallb (fun ck => match single_char_kind (fst ck) with
+                      | Some k => (rkind_code k =? snd ck)%N | None => false end) single_char_arms_src = true /\
+   length single_char_arms_src = 15 /\ NoDup (map fst single_char_arms_src)) /\
+  (forall c k, single_char_kind c = Some k -> In c (map fst single_char_arms_src)).
+Print Assumptions C09_source_tables.
 
 (* Non-vacuity: unterminated groups, stray characters; a single relation accepted. *)
 Example C09_ex_unterminated :
